@@ -294,7 +294,6 @@ Proof.
 Qed.
 
 (* ---------- match_trivia ---------- *)
-Definition trivia_ok (tvs : list trivium) : Prop := Forall (fun tv => tv_text tv <> []) tvs.
 
 Opaque match_trivium_whitespace match_trivium_newline match_trivium_single_line_comment.
 
@@ -380,9 +379,6 @@ Qed.
 Transparent match_trivium_whitespace match_trivium_newline match_trivium_single_line_comment.
 
 (* ---------- match_terminal ---------- *)
-Definition terminal_ok (t : terminal) : Prop :=
-  trivia_ok (t_leading t) /\ trivia_ok (t_trailing t)
-  /\ (t_kind t <> TEndOfFile -> t_text t <> []).
 
 Lemma match_terminal_spec l :
   span_rev l = [] ->
